@@ -15,6 +15,7 @@ import (
 	"fmt"
 	"os"
 	"path/filepath"
+	"sort"
 	"strings"
 	"syscall"
 	"time"
@@ -222,6 +223,10 @@ func run1301(in Sx) (out Sx) {
 	src, dst := in.L[2].Str(), in.L[3].Str()
 	o := sxC13Opts(in.L[4])
 	second := in.L[5].IsTrue()
+	rootMode := 0 // how the roots are named to copy.Copy: dst mode + 3 * src mode
+	if len(in.L) > 6 {
+		rootMode = in.L[6].Int()
+	}
 
 	work := WorkDir("c13-")
 	defer os.RemoveAll(work)
@@ -249,6 +254,31 @@ func run1301(in Sx) (out Sx) {
 	if err := c13SetRootMeta(dstRoot); err != nil {
 		return L(S("setup"), S(err.Error()))
 	}
+	// the names under which the (already populated) roots are handed to copy.Copy
+	srcNamed, dstNamed := srcRoot, dstRoot
+	if rootMode != 0 {
+		if err := os.Symlink(".", filepath.Join(work, "anc")); err != nil { // anc -> the work directory itself
+			return L(S("setup"), S(err.Error()))
+		}
+		switch rootMode % 3 {
+		case 1: // through a symlinked ancestor
+			dstNamed = filepath.Join(work, "anc", "d")
+		case 2: // the root itself is a symlink to the real root
+			if err := os.Symlink("d", filepath.Join(work, "dl")); err != nil {
+				return L(S("setup"), S(err.Error()))
+			}
+			dstNamed = filepath.Join(work, "dl")
+		}
+		switch (rootMode / 3) % 3 {
+		case 1:
+			srcNamed = filepath.Join(work, "anc", "s")
+		case 2:
+			if err := os.Symlink("s", filepath.Join(work, "sl")); err != nil {
+				return L(S("setup"), S(err.Error()))
+			}
+			srcNamed = filepath.Join(work, "sl")
+		}
+	}
 	old := syscall.Umask(o.umask)
 	defer syscall.Umask(old)
 
@@ -258,7 +288,7 @@ func run1301(in Sx) (out Sx) {
 		n = 2
 	}
 	for i := 0; i < n; i++ {
-		cls, notifs := c13CopyOnce(srcRoot, src, dstRoot, dst, o)
+		cls, notifs := c13CopyOnce(srcNamed, src, dstNamed, dst, o)
 		snap, err := c13Snapshot(dstRoot)
 		if err != nil {
 			return L(S("snapshot"), S(err.Error()))
@@ -547,6 +577,44 @@ func c13GenArgs(r *Rng, sp, dp c13Paths, o *c13Opts, c15 bool) (src, dst, cls st
 	return
 }
 
+// a destination that holds nothing but a chain of existing directories (the landing path and
+// its ancestors), with foreign owners and, often, the set-group-ID bit: entries created below
+// them inherit the directory's group (and directories the bit) from the kernel, so the copy
+// has to restore the source's owner itself
+func c13Skeleton(r *Rng) []*MNode {
+	names := []string{"n1", "n2", "n3"}
+	depth := 1 + r.Intn(3)
+	var top, cur *MNode
+	for i := 0; i < depth; i++ {
+		mode := uint32(os.ModeDir) | uint32(Pick(r, []int{0755, 0775, 0770, 0777}))
+		if r.Chance(65) {
+			mode |= uint32(os.ModeSetgid)
+		}
+		if r.Chance(15) {
+			mode |= uint32(os.ModeSticky)
+		}
+		st := &types.Stat{Mode: mode, ModTime: int64(1500000000+r.Intn(1000000))*1e9 + int64(r.Intn(1e9)),
+			Uid: uint32(Pick(r, []int{0, 0, 1, 1000})), Gid: uint32(Pick(r, []int{0, 5, 7, 200, 4242}))}
+		n := &MNode{Name: names[i], Stat: st}
+		if cur == nil {
+			top = n
+		} else {
+			cur.Kids = []*MNode{n}
+		}
+		cur = n
+	}
+	return []*MNode{top}
+}
+
+// dst mode (0 real, 1 symlinked ancestor, 2 root is a symlink) + 3 * src mode
+func c13RootMode(r *Rng) int {
+	// (srcRoot itself a symlink is left out: rootPath returns the root unresolved for src "/",
+	// so the LINK is what gets lstat'ed and copied - a caller error rather than a copy property)
+	// likewise dstRoot itself a symlink is only used by the directed cases, which land below the
+	// root: when the landing path IS the root, the link itself is what copyDirectoryOnly lstat's
+	return Pick(r, []int{0, 1, 1}) + 3*Pick(r, []int{0, 0, 1})
+}
+
 func c13Case(r *Rng, c15 bool) (Sx, string, bool) {
 	to := TreeOpts{MaxEntries: 10, MaxDepth: 3, Types: true, HardLinks: true, Xattrs: true, Owners: true}
 	if c15 || r.Chance(50) {
@@ -558,15 +626,37 @@ func c13Case(r *Rng, c15 bool) (Sx, string, bool) {
 	sv := GenView(r, to)
 	c13FixView(r, sv, true, true)
 	var dv []*MNode
+	skel := false
 	if c15 {
 		to.MaxEntries = 8
 		dv = GenView(r, to)
 		c13FixView(r, dv, true, true)
+	} else if r.Chance(35) {
+		dv = c13Skeleton(r)
+		skel = true
 	}
 	sp, dp := c13Collect(sv), c13Collect(dv)
 	o, ocls := c13GenOpts(r, c15)
 	src, dst, acls := c13GenArgs(r, sp, dp, &o, c15)
+	if skel {
+		// land at or below the END of the chain, so that nothing of the destination lies below
+		// the landing path (C13 is about an otherwise empty destination)
+		last := dv[0].Name
+		for n := dv[0]; len(n.Kids) > 0; n = n.Kids[0] {
+			last += "/" + n.Kids[0].Name
+		}
+		dst = last + Pick(r, []string{"", "/", "/new", "/new/", "/new/deeper"})
+		acls += "+skel"
+	}
 	in := L(ViewSx(sv), ViewSx(dv), S(src), S(dst), o.Sx(), Bool(c15))
+	// how the roots are named: real path / through a symlinked ancestor / the root itself a symlink
+	if r.Chance(30) {
+		rm := c13RootMode(r)
+		if rm != 0 {
+			in = L(ViewSx(sv), ViewSx(dv), S(src), S(dst), o.Sx(), Bool(c15), NI(rm))
+			acls += fmt.Sprintf("+root%d", rm)
+		}
+	}
 	return in, acls + "/" + ocls, len(sp.all) >= 2
 }
 
@@ -685,6 +775,161 @@ func c13Directed(g *Gen) {
 			in := L(ViewSx(sv), ViewSx(nil), S(src), S(dst), o.Sx(), Bool(false))
 			g.Emit(0x1301, in, true, "directed/"+a+"/"+ocls)
 		}
+		// the same into a chain of existing (often set-group-ID, foreign-group) directories:
+		// landing inside the last one, on a new name below it, or merged into it (dir-contents);
+		// with and without a Chown option, sources owned by the caller (0:0) and by others
+		for v := 0; v < 4; v++ {
+			o, ocls := c13GenOptsIndep(r, false)
+			o.wild = false
+			if v%2 == 0 {
+				o.chown = nil
+			}
+			x := c13Node(a, "x", r, "c")
+			if v < 2 {
+				x.Stat.Uid, x.Stat.Gid = 0, 0
+			}
+			sv := []*MNode{c13DirOf("d", r, x, c13Node("file", "s", r, ""))}
+			dv := c13Skeleton(r)
+			last := "n1"
+			for n := dv[0]; len(n.Kids) > 0; n = n.Kids[0] {
+				last += "/" + n.Kids[0].Name
+			}
+			src, dst := Pick(r, []string{"d", "d/x"}), Pick(r, []string{last, last + "/", last + "/new", last + "/new/"})
+			in := L(ViewSx(sv), ViewSx(dv), S(src), S(dst), o.Sx(), Bool(false))
+			g.Emit(0x1301, in, true, "directed-skel/"+a+"/"+ocls)
+		}
+	}
+}
+
+// the Utime option, destination levels that MkdirAll has to create, and every way of naming the
+// roots: created parents must carry the requested time whatever the root is called
+func c13DirectedRoots(g *Gen) {
+	r := g.Rng
+	for rm := 0; rm < 6; rm++ {
+		for v := 0; v < 3; v++ {
+			t := int64(1400000000+r.Intn(1000))*1e9 + int64(r.Intn(1e9))
+			o := c13Opts{umask: 022, utime: &t}
+			if v == 2 {
+				o.chown = &[2]int{100, 200}
+			}
+			sv := []*MNode{c13DirOf("d", r, c13Node("file", "x", r, ""), c13Node("link", "l", r, "")), c13Node("file", "f", r, "")}
+			src := Pick(r, []string{"f", "d", "d/x"})
+			dst := Pick(r, []string{"a/b/c/", "a/b/c", "a/"})
+			in := L(ViewSx(sv), ViewSx(nil), S(src), S(dst), o.Sx(), Bool(false), NI(rm))
+			g.Emit(0x1301, in, true, fmt.Sprintf("directed-roots/%d", rm))
+		}
+	}
+}
+
+// wildcard matches that collide in the destination: several source directories hold entries
+// with the same few names and of different kinds (directory with files inside / file / symlink),
+// link groups span files at any depth of different matches, always-replace mostly on: a later
+// match replaces what an earlier one put there, including directories that hold the recorded
+// copy of a link group
+func c13CollideCase(r *Rng, c15 bool) (Sx, string) {
+	pool := []string{"x", "y", "z"}
+	nd := 2 + r.Intn(3)
+	var roots []*MNode
+	for i := 0; i < nd; i++ {
+		var kids []*MNode
+		for _, nm := range pool {
+			if !r.Chance(65) {
+				continue
+			}
+			switch k := r.Intn(100); {
+			case k < 35:
+				d := c13Node("dir", nm, r, "")
+				for _, cn := range []string{"f", "g"} {
+					if r.Chance(60) {
+						d.Kids = append(d.Kids, c13Node("file", cn, r, ""))
+					}
+				}
+				if r.Chance(30) {
+					d.Kids = append(d.Kids, c13DirOf("s", r, c13Node("file", "h", r, "")))
+				}
+				sortKids(d)
+				kids = append(kids, d)
+			case k < 80:
+				kids = append(kids, c13Node("file", nm, r, ""))
+			default:
+				kids = append(kids, c13Node("link", nm, r, ""))
+			}
+		}
+		roots = append(roots, c13DirOf(fmt.Sprintf("d%d", i+1), r, kids...))
+	}
+	// regular files in walk order
+	type fref struct {
+		n *MNode
+		p string
+	}
+	var files []fref
+	var walk func(dir string, n *MNode)
+	walk = func(dir string, n *MNode) {
+		p := n.Name
+		if dir != "" {
+			p = dir + "/" + n.Name
+		}
+		if os.FileMode(n.Stat.Mode)&os.ModeType == 0 {
+			files = append(files, fref{n, p})
+		}
+		for _, k := range n.Kids {
+			walk(p, k)
+		}
+	}
+	for _, n := range roots {
+		walk("", n)
+	}
+	// one or two link groups over them (every later member names the first in walk order)
+	used := map[int]bool{}
+	for g := 0; g < 1+r.Intn(2) && len(files) >= 2; g++ {
+		var idx []int
+		for k := 0; k < 2+r.Intn(2); k++ {
+			i := r.Intn(len(files))
+			if !used[i] {
+				used[i] = true
+				idx = append(idx, i)
+			}
+		}
+		if len(idx) < 2 {
+			continue
+		}
+		sort.Ints(idx)
+		first := files[idx[0]]
+		delete(first.n.Stat.Xattrs, c13CapKey)
+		for _, i := range idx[1:] {
+			files[i].n.Stat = first.n.Stat.CloneVT()
+			files[i].n.Content = first.n.Content
+			files[i].n.Stat.Linkname = first.p
+		}
+	}
+	var dv []*MNode
+	if c15 && r.Chance(60) {
+		dv = GenView(r, TreeOpts{MaxEntries: 5, MaxDepth: 2, Types: true, Names: []string{"x", "y", "z", "n"}, Owners: true})
+	}
+	o := c13Opts{umask: 022, wild: true, replace: r.Chance(75), dirContents: r.Chance(25)}
+	if r.Chance(25) {
+		t := int64(1400000000+r.Intn(1000)) * 1e9
+		o.utime = &t
+	}
+	src := Pick(r, []string{"*/*", "d*/?", "*/x", "d?/*", "*/*"})
+	dst := Pick(r, []string{"/", "/", "n", "n/"})
+	if c13ThroughLink(c13Collect(dv), dst) {
+		dst = "/"
+	}
+	cls := "collide"
+	if o.replace {
+		cls += "+ar"
+	}
+	if o.dirContents {
+		cls += "+dc"
+	}
+	return L(ViewSx(roots), ViewSx(dv), S(src), S(dst), o.Sx(), Bool(c15)), cls
+}
+
+func c13Collide(g *Gen, kind uint64, c15 bool, n int) {
+	for i := 0; i < n; i++ {
+		in, cls := c13CollideCase(g.Rng, c15)
+		g.Emit(kind, in, true, cls)
 	}
 }
 
@@ -694,6 +939,8 @@ func c13OK(out Sx) bool {
 
 func genC13(g *Gen) {
 	c13Directed(g)
+	c13DirectedRoots(g)
+	c13Collide(g, 0x1301, false, g.Vol(100, 2000))
 	n := g.Vol(1500, 30000)
 	for i := 0; i < n; i++ {
 		in, cls, big := c13Case(g.Rng, false)
@@ -727,6 +974,7 @@ func genC13(g *Gen) {
 
 func genC15(g *Gen) {
 	c15Directed(g)
+	c13Collide(g, 0x1501, true, g.Vol(250, 5000))
 	n := g.Vol(1500, 30000)
 	for i := 0; i < n; i++ {
 		in, cls, big := c13Case(g.Rng, true)
